@@ -614,8 +614,9 @@ def _small(b):
 _CLASS_MESSAGES = {
     'constructor-accepts-non-periodic-knot-vector': ('periods it is', 'at start (from above) but', 'jumps at the seam', 'raised'),
     'make-periodic-weights-continuity>=2': ('control points after the round trip differ',),
-    'periodic-insert-small-basis': ('after the round trip', 'raised', 'the original object gives', 'cannot be evaluated',
-                                    'the period changed', 'has periodicity', 'has domain'),
+    # split(start) of a periodic direction with n < p+k functions is correct since the periodic insert_knot fix; what
+    # remains is make_periodic on the SHORT open object it returns (too-short knot vector / other control points)
+    'make-periodic-short-direction': ('make_periodic(', 'control points after the round trip differ'),
 }
 
 
@@ -629,14 +630,12 @@ def _spec_class(s):
     if k == 'roundtrip':
         b = s['obj']['bases'][s['dir']]
         if _small(b):
-            return 'periodic-insert-small-basis'
+            return 'make-periodic-short-direction'
         if s['k'] >= 2:
             return 'make-periodic-weights-continuity>=2'
         return None
     if k == 'lower':
-        b = s['obj']['bases'][s['dir']]
-        if _small(b):
-            return 'periodic-insert-small-basis'
+        # (`periodic-insert-small-basis`: lower_periodic on small periodic bases is fixed with periodic insert_knot)
         return None
     return None
 
